@@ -5,10 +5,9 @@ sys.path.insert(0, os.path.join(vlib.VERIF, 'tools'))
 import gen_c03_progs as G
 
 IFACES = ['interp', 'mirinterp', 'gen', 'lazy', 'bb']
-# every shape tools/gen_c03_progs.py knows, except `alloca` in inlinable functions: MIR_link's hoisting of inlined
-# constant-size allocas hands out garbage blocks (reported to C04's owner; it made programs nondeterministic under
-# every interface alike)
-FEATS = {'mem', 'switch', 'laddr', 'lref', 'indirect', 'reftab', 'inline', 'recursion', 'callback', 'ext_va', 'global', 'faddr'}
+# every shape tools/gen_c03_progs.py knows (`alloca` in inlinable functions is back since C04's fixes of MIR_link's
+# alloca hoisting: 12af6d7e, e5fccac4, a682f7ad, 92880028)
+FEATS = {'mem', 'switch', 'laddr', 'lref', 'indirect', 'reftab', 'inline', 'recursion', 'callback', 'ext_va', 'global', 'faddr', 'alloca'}
 PDIR = os.path.join(vlib.BUILD, 'c03p')
 
 
